@@ -7,13 +7,16 @@ import MidnightZK.Proofs.C01.LookupProduct
 import MidnightZK.Proofs.C01.IdentityOrder
 import MidnightZK.Proofs.C01.PermComplete
 import MidnightZK.Proofs.C01.Toy
+import MidnightZK.Proofs.C01.Bridge
 /-!
 # C01 — honest proofs verify for every circuit shape and proving configuration
 
 Property theorems about the Fiat–Shamir schedules (`Model/C01/Schedule.lean`), the quotient
 split (`Quotient.lean`), the expression-graph compiler (`GraphEval.lean`), the order in which
 prover and verifier combine the identities (`Identities.lean`) and the completeness of the
-permutation, lookup and trash arguments as the prover constructs them (`Arguments.lean`).
+permutation, lookup and trash arguments as the prover constructs them (`Arguments.lean`), and the
+assembly (`Vanishing.lean`, `Proofs/C01/{Domain,Assembly,Bridge}.lean`): from identities that vanish on
+every row to the verifier's final evaluation check.
 -/
 namespace MidnightZK.C01
 
@@ -671,5 +674,218 @@ example (rnd : Nat → Nat → ℚ) :
     (Args.permProducts (fun x => x⁻¹) 1 4 1 (1 : ℚ) 1 2 3 rnd exCols).getLast?.map (fun z => z.getD (4 - (1 + 1)) 0)
       = some (permNum 1 1 2 3 (4 - (1 + 1)) exCols * (permDen 1 1 (4 - (1 + 1)) exCols)⁻¹) :=
   perm_last_value 1 4 1 (1 : ℚ) 1 2 3 rnd exCols (Nat.le_refl 1) (by decide) exCols_len (by decide)
+
+/-! ### assembly: from "every identity vanishes on every row" to the verifier's final check -/
+
+section Assembly
+open Polynomial Finset
+variable {F : Type} [Field F] {n : ℕ} {ω : F}
+
+/-- **The vanishing polynomial of the domain** (`domain.rs`: `t(X) = X^n − 1`): for a primitive
+`n`-th root of unity `ω` of any field, `X^n − 1 = ∏_{i<n} (X − ω^i)`. -/
+theorem vanishing_poly_factors (hω : IsPrimitiveRoot ω n) (hn : 0 < n) :
+    (X ^ n - 1 : F[X]) = ∏ i ∈ range n, (X - C (ω ^ i)) :=
+  Dom.vanishing_eq_prod hω hn
+
+/-- **Divisibility**: a polynomial that vanishes on every row `ω^i` of the domain is a multiple of
+`X^n − 1` (what `divide_by_vanishing_poly` relies on), and conversely. -/
+theorem vanish_on_domain_iff_dvd (hω : IsPrimitiveRoot ω n) (hn : 0 < n) (p : F[X]) :
+    (∀ i, i < n → p.eval (ω ^ i) = 0) ↔ (X ^ n - 1 : F[X]) ∣ p :=
+  ⟨Dom.dvd_of_vanish_on_domain hω hn p, fun h i _ => Dom.vanish_of_dvd hω p h i⟩
+
+/-- **The `y`-combination of identities that vanish on the domain is divisible by `X^n − 1`**, for
+every `y` (no exceptional `y` in the completeness direction). -/
+theorem ycomb_divisible (hω : IsPrimitiveRoot ω n) (hn : 0 < n) (y : F) (ids : List F[X])
+    (hv : ∀ p ∈ ids, ∀ i, i < n → p.eval (ω ^ i) = 0) : (X ^ n - 1 : F[X]) ∣ Dom.ycomb y ids :=
+  Dom.ycomb_dvd hω hn y ids hv
+
+/-- **The verifier's equation holds at every point**: with `h := ycomb / (X^n − 1)`,
+`h(x)·(x^n − 1) = fold(0, |h, v| h·y + v)` over the identities evaluated at `x` — for EVERY `x`
+and `y`. -/
+theorem quotient_identity_everywhere (hω : IsPrimitiveRoot ω n) (hn : 0 < n) (y : F) (ids : List F[X])
+    (hv : ∀ p ∈ ids, ∀ i, i < n → p.eval (ω ^ i) = 0) (x : F) :
+    (Dom.ycomb y ids /ₘ (X ^ n - 1)).eval x * (x ^ n - 1) =
+      (ids.map (eval x)).foldl (fun h v => h * y + v) 0 :=
+  Asm.quotient_eval hω hn y ids hv x
+
+/-- **`l_i_range` is the barycentric formula** `l_i(x) = ω^i (x^n − 1) / (n (x − ω^i))`, `i =
+rotation mod n` (`rotate_omega` through `omega`/`omega_inv`), for every list of rotations. -/
+theorem lagrange_range_spec (hω : IsPrimitiveRoot ω n) (hn : 0 < n) (x : F) (rots : List ℤ) :
+    Van.lIRange (fun a => a⁻¹) ω ω⁻¹ (n : F)⁻¹ x (x ^ n) rots =
+      rots.map (fun r => Dom.lagrangeAt ω n x (Asm.rowOf n r)) :=
+  Asm.lIRange_spec hω hn x rots
+
+/-- **Barycentric evaluation off the domain**: every polynomial of degree `< n` satisfies
+`p(x) = Σ_i p(ω^i)·l_i(x)` with `l_i(x)` as `l_i_range` computes it, for every `x` with `x^n ≠ 1`. -/
+theorem lagrange_interpolation (hω : IsPrimitiveRoot ω n) (hn : 0 < n) (p : F[X]) (hp : p.degree < n)
+    {x : F} (hx : x ^ n ≠ 1) :
+    p.eval x = ∑ i ∈ range n, p.eval (ω ^ i) * Dom.lagrangeAt ω n x i :=
+  Dom.eval_eq_sum_lagrange hω hn p hp hx
+
+/-- **`l_0`, `l_last`, `l_blind` of `evaluate_identities`** are the evaluations at `x` of the
+polynomials of degree `< n` that equal the row indicators `[i = 0]`, `[i = u]`, `[u < i]`
+(`u = n − (blinding_factors + 1)`) on the domain — the convention of the row-level theorems. -/
+theorem l_evals_spec (hω : IsPrimitiveRoot ω n) (bf : ℕ) (hbf : bf + 1 ≤ n) {x : F} (hx : x ^ n ≠ 1) :
+    Van.lEvals (fun a => a⁻¹) ω ω⁻¹ (n : F)⁻¹ x (x ^ n) bf =
+      ((Asm.indPoly ω n (fun i => i = 0)).eval x,
+       (Asm.indPoly ω n (fun i => i = n - (bf + 1))).eval x,
+       (Asm.indPoly ω n (fun i => n - (bf + 1) < i)).eval x) :=
+  Asm.lEvals_spec hω bf hbf hx
+
+/-- **The evaluation of a plain instance column the verifier computes itself**
+(`compute_inner_product(instances, &l_i_s[offset..])` with `offset = max_rotation − rotation`) is
+the evaluation at `ω^rot·x` of the column's interpolating polynomial (zero beyond its length), for
+every window `−min ≤ rot ≤ max`, every column length `≤ max_instance_len, n`. -/
+theorem instance_eval_spec (hω : IsPrimitiveRoot ω n) (hn : 0 < n) {x : F} (hx : x ^ n ≠ 1)
+    (maxRot minRotAbs maxLen : ℕ) (inst : List F) (hlen : inst.length ≤ maxLen) (hln : inst.length ≤ n)
+    (rot : ℤ) (h1 : -(minRotAbs : ℤ) ≤ rot) (h2 : rot ≤ maxRot) :
+    Van.instanceEval (fun a => a⁻¹) ω ω⁻¹ (n : F)⁻¹ x (x ^ n) maxRot minRotAbs maxLen inst rot =
+      eval (ω ^ rot * x) (Asm.colPoly ω n inst) :=
+  Asm.instanceEval_spec hω hn hx maxRot minRotAbs maxLen inst hlen hln rot h1 h2
+
+/-- **Row-level completeness lifts to polynomials (lookup)**: under the hypotheses of
+`lookup_product_complete` the five lookup identity POLYNOMIALS (built from the Lagrange-form
+vectors, `l_0`/`l_last`/`l_blind` and the rotations `ω`, `ω⁻¹`) vanish on the whole domain. -/
+theorem lookup_identities_vanish_on_domain [DecidableEq F] (hω : IsPrimitiveRoot ω n)
+    (le : F → F → Bool) (hle : LinOrd le)
+    (order : List (F × Nat) → List (F × Nat)) (horder : ∀ m, (order m).Perm m)
+    (bf : Nat) (β γ : F) (A S blindA blindS rnd A' S' : List F)
+    (hn : bf + 2 ≤ n) (hA : A.length = n) (hS : S.length = n)
+    (hok : Args.permuteExpressionPair le 0 order (n - (bf + 1)) A S blindA blindS = .ok A' S')
+    (hden : ∀ i, i < n - (bf + 1) → (β + A'.getD i 0) * (γ + S'.getD i 0) ≠ 0) :
+    ∀ p ∈ Asm.lookupIdPolys ω n bf β γ A S A' S'
+        (Args.lookupProduct (fun x => x⁻¹) n bf β γ A S A' S' rnd), ∀ i, i < n → p.eval (ω ^ i) = 0 :=
+  Asm.lookupIdPolys_vanish hω (by omega) bf β γ A S A' S' _
+    (lookup_product_complete le hle order horder n bf β γ A S blindA blindS rnd A' S' hn hA hS hok hden)
+
+/-- **Row-level completeness lifts to polynomials (trash)**: under the hypotheses of
+`trash_complete` the trash identity polynomial vanishes on the whole domain. -/
+theorem trash_identity_vanishes_on_domain (hω : IsPrimitiveRoot ω n) (c : F) (q : List F)
+    (exprs : List (List F)) (hl : ∀ e ∈ exprs, e.length = n)
+    (hsat : ∀ i, i < n → ∀ e ∈ exprs, q.getD i 0 * e.getD i 0 = 0) :
+    ∀ i, i < n → (Asm.trashIdPoly ω n c q exprs (Args.trashValues n c exprs)).eval (ω ^ i) = 0 :=
+  Asm.trashIdPoly_vanish hω c q exprs _ (trash_complete n c q exprs hl hsat)
+
+/-- **Custom gates on the blinding rows.** A gate polynomial `selector · G` vanishes on the whole
+domain as soon as (a) the selector column is zero on the unusable rows `i ≥ u` — fixed columns
+cannot be assigned there (`keygen.rs: Assembly::assign_fixed` returns `NotEnoughRowsAvailable`) —
+and (b) `G` vanishes on the usable rows where the selector is on (the witness satisfies the gate).
+NOTHING is assumed about `G` on the blinding rows, where `prover.rs` overwrites the advice columns
+with random values. -/
+theorem selector_gate_blinding_rows (hω : IsPrimitiveRoot ω n) (u : ℕ) (q : List F) (G : F[X])
+    (hq : ∀ i, u ≤ i → i < n → q.getD i 0 = 0)
+    (hsat : ∀ i, i < u → q.getD i 0 ≠ 0 → G.eval (ω ^ i) = 0) :
+    ∀ i, i < n → (Asm.colPoly ω n q * G).eval (ω ^ i) = 0 :=
+  Asm.selector_gate_blinding hω u q G hq hsat
+
+/-- **Gates without such a factor are NOT protected**: the gate `a = 0` (one advice query, no
+selector, e.g. `Constraints::without_selector(vec![a])`) fails on every row where the blinded column
+is non-zero, so `X^n − 1` does not divide the numerator: no quotient exists. This is a requirement on
+circuits that the repository's mock checker enforces (`dev: VerifyFailure::ConstraintPoisoned`, "active
+on an unusable row - missing selector?"); on the real prover such a circuit yields a proof the
+verifier rejects, while a gate with a plain fixed-column factor is accepted (harness counters
+`noselector-gate:*`; oracle: mock accepts ⇒ verifier accepts). -/
+theorem unselected_gate_not_divisible (hω : IsPrimitiveRoot ω n) (a : List F) (i : ℕ)
+    (hi : i < n) (hb : a.getD i 0 ≠ 0) : ¬ (X ^ n - 1 : F[X]) ∣ Asm.colPoly ω n a := fun h =>
+  Asm.unselected_gate_fails hω a i hi hb (Dom.vanish_of_dvd hω _ h i)
+
+/-- **Honest proofs pass the verifier's algebraic check** (`verify_algebraic_constraints`, with the
+commitments read as the polynomials they commit to; KZG opening completeness is C14). For every
+field with a primitive `n`-th root of unity (`n = 2^k ≥ 2`), every number `q ≥ 1` of quotient
+pieces (`get_quotient_poly_degree()`), every list `ids` of identity polynomials — one per entry of
+`verifierIds`, each vanishing on every row of the domain (custom gates: `selector_gate_blinding_rows`;
+permutation: `perm_product_complete`; lookups: `lookup_identities_vanish_on_domain`; trash:
+`trash_identity_vanishes_on_domain`) and of degree `< n + (n−1)·q` (= `degree·(n−1) + 1`) —, every
+`y`, every blinding vector `ts` of `blind_quotient_limbs` and EVERY `x` outside the domain:
+
+* the quotient `h = (Σ y-combination)/(X^n − 1)` exists as a polynomial, its `(n−1)·q` first
+  coefficients are all of it (`truncate` loses nothing);
+* with the pieces `chunks_exact(n−1)` + `blind_quotient_limbs` the prover commits to, the value the
+  chopped commitment opens to at `x` (`as_terms`: `Σ x^((n−1)i)·h_i(x)`) EQUALS `expected_h_eval =
+  fold(0, |h, v| h·y + v)·(x^n − 1)⁻¹` computed by `vanishing/verifier.rs: verify` from the
+  identity values at `x`: the check `hCheck` accepts;
+* the prover's own `Constructed::evaluate` yields the same value `h(x)`. -/
+theorem honest_verifies_algebraic [DecidableEq F] (hω : IsPrimitiveRoot ω n) (hn : 2 ≤ n)
+    (q : ℕ) (hq : 1 ≤ q) (ids : List F[X])
+    (hvanish : ∀ p ∈ ids, ∀ i, i < n → p.eval (ω ^ i) = 0)
+    (hdeg : ∀ p ∈ ids, p.natDegree < n + (n - 1) * q)
+    (y x : F) (hx : x ^ n ≠ 1) (ts : List F) :
+    let h := Dom.ycomb y ids /ₘ (X ^ n - 1)
+    let pieces := blind ts (chunksExact (n - 1) ((n - 1) * q) (Asm.coeffList h ((n - 1) * q)))
+    h * (X ^ n - 1) = Dom.ycomb y ids ∧
+    Van.hCheck (fun a => a⁻¹) (ids.map (eval x)) y x n (pieces.map (fun L => evalPoly L x)) = true ∧
+    Van.choppedEval x n (pieces.map (fun L => evalPoly L x)) = h.eval x := by
+  intro h pieces
+  have hn0 : 0 < n := by omega
+  have hm : 1 ≤ n - 1 := by omega
+  have hmq : 0 < (n - 1) * q := Nat.mul_pos (by omega) (by omega)
+  have hdegN : (Dom.ycomb y ids).natDegree < n + (n - 1) * q :=
+    Asm.natDegree_ycomb_lt y _ (by omega) ids hdeg
+  have hdegh : h.natDegree < (n - 1) * q := Asm.natDegree_quotient_lt hn0 _ _ hmq hdegN
+  have hpieces : Van.choppedEval x n (pieces.map (fun L => evalPoly L x)) = h.eval x := by
+    rw [Asm.choppedEval_eq_recombine]
+    show recombine x (n - 1) (blind ts _) = _
+    rw [quotient_blind_recombine x (n - 1) hm _ ts (Asm.chunksExact_length_mem (n - 1) _ _),
+      chunks_recombine x (n - 1) hm q ((n - 1) * q) _ (Asm.coeffList_length h _)
+        (Nat.le_mul_of_pos_left q (by omega)),
+      Asm.evalPoly_coeffList h _ hdegh x]
+  refine ⟨Asm.quotient_mul hω hn0 y ids hvanish, ?_, hpieces⟩
+  unfold Van.hCheck
+  rw [decide_eq_true_eq, hpieces, Asm.expectedHEval_eq hω hn0 y ids hvanish x hx]
+
+end Assembly
+
+/-- Non-vacuity over `ℚ` with `n = 2`, `ω = −1`: the hypotheses of `honest_verifies_algebraic` are
+satisfiable — the identity `X² − 1` vanishes on the domain `{1, −1}`, has degree `2 < 2 + 1·1`, and
+`x = 2` is off the domain; the theorem then applies (`q = 1`, `y = 3`, `ts = [5]`). -/
+example : ∃ ids : List (Polynomial ℚ), ids ≠ [] ∧ IsPrimitiveRoot (-1 : ℚ) 2 ∧
+    (∀ p ∈ ids, ∀ i, i < 2 → p.eval ((-1 : ℚ) ^ i) = 0) ∧
+    (∀ p ∈ ids, p.natDegree < 2 + (2 - 1) * 1) ∧ (2 : ℚ) ^ 2 ≠ 1 := by
+  refine ⟨[Polynomial.X ^ 2 - 1], by simp, IsPrimitiveRoot.neg_one 0 (by decide), ?_, ?_, by norm_num⟩
+  · intro p hp i hi
+    simp only [List.mem_singleton] at hp
+    subst hp
+    interval_cases i <;> simp
+  · intro p hp
+    simp only [List.mem_singleton] at hp
+    subst hp
+    have : ((Polynomial.X : Polynomial ℚ) ^ 2 - 1).natDegree = 2 := Polynomial.natDegree_X_pow_sub_C
+    omega
+
+example (h1 : IsPrimitiveRoot (-1 : ℚ) 2)
+    (h2 : ∀ p ∈ [(Polynomial.X : Polynomial ℚ) ^ 2 - 1], ∀ i, i < 2 → p.eval ((-1 : ℚ) ^ i) = 0)
+    (h3 : ∀ p ∈ [(Polynomial.X : Polynomial ℚ) ^ 2 - 1], p.natDegree < 2 + (2 - 1) * 1) (h4 : (2 : ℚ) ^ 2 ≠ 1) :
+    (Dom.ycomb (3 : ℚ) [Polynomial.X ^ 2 - 1] /ₘ (Polynomial.X ^ 2 - 1)) * (Polynomial.X ^ 2 - 1) =
+      Dom.ycomb (3 : ℚ) [Polynomial.X ^ 2 - 1] :=
+  (honest_verifies_algebraic h1 (by decide) 1 (by decide) _ h2 h3 3 2 h4 [5]).1
+
+/-- Non-vacuity of the Lagrange / instance / gate statements over `ℚ`, `n = 2`, `ω = −1`, `x = 2`. -/
+example : Van.lEvals (fun a => a⁻¹) (-1 : ℚ) (-1 : ℚ)⁻¹ ((2 : ℕ) : ℚ)⁻¹ 2 (2 ^ 2) 0 =
+    ((Asm.indPoly (-1 : ℚ) 2 (fun i => i = 0)).eval 2,
+     (Asm.indPoly (-1 : ℚ) 2 (fun i => i = 2 - (0 + 1))).eval 2,
+     (Asm.indPoly (-1 : ℚ) 2 (fun i => 2 - (0 + 1) < i)).eval 2) :=
+  l_evals_spec (IsPrimitiveRoot.neg_one 0 (by decide)) 0 (by decide) (by norm_num)
+
+example : Van.instanceEval (fun a => a⁻¹) (-1 : ℚ) (-1 : ℚ)⁻¹ ((2 : ℕ) : ℚ)⁻¹ 2 (2 ^ 2) 1 1 1 [5] (-1) =
+    Polynomial.eval ((-1 : ℚ) ^ (-1 : ℤ) * 2) (Asm.colPoly (-1 : ℚ) 2 [5]) :=
+  instance_eval_spec (IsPrimitiveRoot.neg_one 0 (by decide)) (by decide) (by norm_num) 1 1 1 [5]
+    (by decide) (by decide) (-1) (by decide) (by decide)
+
+example : ∀ i, i < 2 → (Asm.colPoly (-1 : ℚ) 2 [1, 0] * (Polynomial.X - 1)).eval ((-1 : ℚ) ^ i) = 0 :=
+  selector_gate_blinding_rows (IsPrimitiveRoot.neg_one 0 (by decide)) 1 [1, 0] (Polynomial.X - 1)
+    (by intro i h1 h2; interval_cases i; rfl)
+    (by intro i h1 _; interval_cases i; simp)
+
+example : ¬ (Polynomial.X ^ 2 - 1 : Polynomial ℚ) ∣ Asm.colPoly (-1 : ℚ) 2 [0, 7] :=
+  unselected_gate_not_divisible (IsPrimitiveRoot.neg_one 0 (by decide)) [0, 7] 1 (by decide) (by norm_num)
+
+example : ∀ i, i < 2 → (Asm.trashIdPoly (-1 : ℚ) 2 5 [1, 0] [[0, 3]] (Args.trashValues 2 5 [[0, 3]])).eval ((-1 : ℚ) ^ i) = 0 :=
+  trash_identity_vanishes_on_domain (IsPrimitiveRoot.neg_one 0 (by decide)) 5 [1, 0] [[0, 3]]
+    (by intro e he; simp only [List.mem_singleton] at he; subst he; rfl)
+    (by
+      intro i hi e he
+      simp only [List.mem_singleton] at he
+      subst he
+      interval_cases i <;> simp)
 
 end MidnightZK.C01
